@@ -423,6 +423,16 @@ theorem C42_store_history_is_timer (c : Core Rat) (h : List (Rat × Op Rat)) :
     obtain ⟨now, op⟩ := p
     simp only [List.map, Store.run, Timer.run, C42_store_is_timer, ih]
 
+/-- **every history of a store timer** on a store whose stamp is a number ≥ 0 at construction and
+at every call: it returns what the wall-clock timer returns and every call satisfies its clause -/
+theorem C42_store_every_history (d t0 : Rat) (h : List (Rat × Op Rat))
+    (h0 : 0 ≤ t0) (hn : ∀ p ∈ h, 0 ≤ p.1) :
+    Store.run (Store.init d (some t0)) (h.map (fun p => (some p.1, p.2))) =
+      (SCore.ofCore (Timer.run (Timer.init d t0) h).1, (Timer.run (Timer.init d t0) h).2) ∧
+    Timer.Along Timer.Spec (Timer.init d t0) h :=
+  ⟨by rw [C42_store_init_is_timer]; exact C42_store_history_is_timer _ h,
+   C42_timer_every_history d t0 h h0 hn⟩
+
 /-- on a store without stamp: never expired, elapsed/remaining raise `TypeError`, nothing changes -/
 theorem C42_store_no_stamp (c : SCore Rat) :
     Store.step c none .expired = (c, .bool false) ∧
@@ -431,8 +441,7 @@ theorem C42_store_no_stamp (c : SCore Rat) :
   refine ⟨rfl, ?_, rfl⟩
   cases c with | mk s a b => cases s <;> rfl
 
-/-- `.stop = .start + .duration`, `.duration ≥ 0` hold in every reachable state of a store timer whose
-start is a number -/
+/-- a store timer whose start is a number never raises while the store has a stamp -/
 theorem C42_store_errors_only_without_stamp (c : Core Rat) (t : Rat) (op : Op Rat) (e : Err) :
     (Store.step (SCore.ofCore c) (some t) op).2 ≠ .err e := by
   rw [C42_store_is_timer]; cases op <;> simp [Timer.step]
